@@ -1975,6 +1975,17 @@ def self_ext_method(interp, recv, name, args, kw, st, node):
         interp.event("validate", node, st, fn="_validate_data", source=b["X"])
         X = _validated(interp, b["X"], kw.get("copy"), st, node, "_validate_data")
         reset = kw.get("reset")
+        # sklearn's feature-count bookkeeping: reset=True (default) records n_features_in_, reset=False
+        # compares with the recorded value (if any) and raises on a mismatch
+        sx_ = shape(X) if X is not None and X.kind == "arr" else None
+        hp_ = st.heap.get(recv.obj.id) if recv.kind == "obj" else None
+        if sx_ is not None and len(sx_) == 2 and hp_ is not None:
+            if reset is None or (reset.has_const and reset.const is True):
+                hp_["n_features_in_"] = A.int_of_dim(sx_[1])
+            elif reset.has_const and reset.const is False:
+                cur_ = hp_.get("n_features_in_")
+                if cur_ is not None and cur_.kind == "int" and cur_.dim is not None and A.dims_conflict(interp, cur_.dim, sx_[1]):
+                    interp.event("shape-conflict", node, st, what="_validate_data(reset=False): the data has another number of features than the recorded n_features_in_ (sklearn raises)", a=(cur_.dim,), b=tuple(sx_))
         if b.get("y") is not None and b["y"].kind not in ("none",) and not (b["y"].has_const and b["y"].const == "no_validation"):
             y = _validated(interp, b["y"], kw.get("copy"), st, node, "_validate_data")
             return interp.mk_tuple([X, y])
